@@ -3,6 +3,7 @@
 package composite
 
 import (
+	"net/http"
 	"fmt"
 	"sort"
 	"strings"
@@ -105,13 +106,21 @@ func c14Build(cfg c14Cfg, customize bool) *c14World {
 	}
 	x.Hooks.Handle("/cc/sync", world.JSON(func(req map[string]interface{}) interface{} { return kit.M{"status": kit.M{}, "children": kit.L{}} }))
 	x.Hooks.Handle("/cc/finalize", world.JSON(func(req map[string]interface{}) interface{} { return kit.M{"status": kit.M{}, "children": kit.L{}} }))
-	x.Hooks.Handle("/cc/customize", world.JSON(func(req map[string]interface{}) interface{} {
+	customizeAnswer := world.JSON(func(req map[string]interface{}) interface{} {
 		// only p1-named parents declare related objects: Others labelled rel=1
 		if kit.Str(req, "parent", "metadata", "name") != "p1" {
 			return kit.M{"relatedResources": kit.L{}}
 		}
 		return kit.M{"relatedResources": kit.L{kit.M{"apiVersion": "v1", "resource": "others", "labelSelector": kit.M{"matchLabels": kit.M{"rel": "1"}}}}}
-	}))
+	})
+	x.Hooks.Handle("/cc/customize", func(hc *world.HookCall) (int, http.Header, []byte, error) {
+		// for p2 and p3 (never synced in the related-object cases, so nothing is remembered for them) the hook is
+		// failing: their problem, not p1's
+		if n := kit.Str(hc.Parsed, "parent", "metadata", "name"); n == "p2" || n == "p3" {
+			return 503, nil, []byte("no answer for this parent right now"), nil
+		}
+		return customizeAnswer(hc)
+	})
 	x.DeliverAll()
 	return x
 }
